@@ -13,7 +13,7 @@ CHECKS = {
     "C19": {
         "binaries": ["forwarder"],
         "runs": [
-            R(LAB, "^TestC19Secrets", {"checks": 30, "timeout": 900}, {"checks": 400, "shards": 8, "timeout": 3000}),
+            R(LAB, "^TestC19Secrets", {"checks": 45, "timeout": 900}, {"checks": 400, "shards": 8, "timeout": 3000}),
         ],
     },
     "C20": {
